@@ -187,6 +187,32 @@ def _param_guard(func, node):
     return None
 
 
+PRIVATE_GENERATORS = ('copy.deepcopy', 'deepcopy', 'np.random.default_rng', 'np.random.Generator',
+                      'numpy.random.default_rng')
+
+
+def _private_generator(f, where, text):
+    """The draw `text` at `where` in `f` is made on a local name every reaching definition of
+    which is a fresh generator (deep copy of a generator / newly constructed): it does not
+    advance any generator the sampler or a bound keeps."""
+    cfg = cfg_of(f)
+    for n in walk_no_nested(f.node):
+        if isinstance(n, ast.Call) and f.where(n) == where and (dotted(n.func) or '') == text \
+                and isinstance(n.func, ast.Attribute) and isinstance(n.func.value, ast.Name) \
+                and n.func.value.id != f.self_name and n.func.value.id not in f.params \
+                and cfg.has(n):
+            defs = cfg.defs_at(cfg.node_of(n).id, n.func.value.id)
+            if not defs:
+                return False
+            for d in defs:
+                st = cfg.nodes[d].ast
+                if not (isinstance(st, ast.Assign) and isinstance(st.value, ast.Call) and
+                        dotted(st.value.func) in PRIVATE_GENERATORS):
+                    return False
+            return True
+    return False
+
+
 def purity(ctx, func, rid, allow_param_guarded=True, label=None):
     """Obligations: no state write, no rng draw (except parameter-guarded draws in
     `func` itself) in func and everything it calls."""
@@ -201,8 +227,12 @@ def purity(ctx, func, rid, allow_param_guarded=True, label=None):
            {'reached': t.reached})
     guarded = []
     bad = []
+    private = []
     for where, text, f in t.draws:
         g = None
+        if _private_generator(f, where, text):
+            private.append((where, text))
+            continue
         if f is func and allow_param_guarded:
             # find the ast node again
             for n in walk_no_nested(func.node):
@@ -237,8 +267,9 @@ def purity(ctx, func, rid, allow_param_guarded=True, label=None):
 
 def rule_F1(ctx, rid='F1', accessors=None):
     ctx.rule(rid, 'purity: the read-only accessors write no sampler or bound state, mutate no '
-             'alias of it and draw no random numbers (a draw control-dependent on an explicit '
-             'parameter is recorded as parameter-guarded)')
+             'alias of it and draw no random numbers from a generator the sampler or a bound '
+             'keeps (a draw control-dependent on an explicit parameter is recorded as '
+             'parameter-guarded; a draw on a private deep copy of a generator does not count)')
     S = ctx.program.cls('Sampler')
     pg = []
     names = accessors or ACCESSORS
